@@ -684,3 +684,7 @@ Proof.
   split; [exact Hw|]. split; [exact Hwa|]. split; [exact Hcl|].
   split; [exact Hf|]. split; [exact Hl|exact Hnp].
 Qed.
+
+Lemma pool_ok_reachable : forall (i m c k : Z) (tr : list label) (p : pool),
+  run (init_pool i m c k) tr = Some p -> pool_ok p.
+Proof. intros i m c k tr p H. eapply run_ok; [apply pool_ok_init|exact H]. Qed.
